@@ -270,6 +270,49 @@ pub fn check_bytes(ctx: &mut Ctx, family: &str, idx: u64, input: &[u8], built_tw
     }
 }
 
+/// Two spellings of one type: the named variant and `Unknown(code)` written by hand (and the same inside `RData::Empty`, inside
+/// the NULL variant and inside a record). Whatever equality says about such a pair, hashing must agree; all 65 536 codes.
+fn type_spellings(ctx: &mut Ctx) {
+    use simple_dns::rdata::{RData, NULL};
+    use simple_dns::{ResourceRecord, CLASS, TYPE};
+    let step = if ctx.slow_tool { 257 } else { 1 };
+    for c in (0..=0xFFFFu32).step_by(step) {
+        let c = c as u16;
+        if !ctx.take("type-spellings", c as u64) {
+            continue;
+        }
+        ctx.case(true, 0x7E00_0000 ^ c as u64);
+        let r = monitor::guard(|| {
+            let (a, b) = (TYPE::from(c), TYPE::Unknown(c));
+            let mut problems: Vec<&'static str> = Vec::new();
+            if a == b && h(&a) != h(&b) { problems.push("TYPE"); }
+            let (ea, eb) = (RData::Empty(a), RData::Empty(b));
+            if ea == eb && h(&ea) != h(&eb) { problems.push("RData::Empty"); }
+            let owner = Name::new("t.example").unwrap();
+            let (ra, rb) = (ResourceRecord::new(owner.clone(), CLASS::IN, 1, ea.clone()), ResourceRecord::new(owner.clone(), CLASS::IN, 2, eb.clone()));
+            if ra == rb && h(&ra) != h(&rb) { problems.push("ResourceRecord"); }
+            // opaque data filed under the code vs the same bytes in a record parsed from the wire
+            let na = RData::NULL(c, NULL::new(&[7]).unwrap());
+            let nb = na.clone().into_owned();
+            if na == nb && h(&na) != h(&nb) { problems.push("RData::NULL"); }
+            if ea.clone().into_owned() != ea || eb.clone().into_owned() != eb { problems.push("into_owned"); }
+            problems
+        });
+        match r {
+            Err(pn) => ctx.panic_violation("comparing two spellings of a type", &pn, json!({"family": "type-spellings", "idx": c})),
+            Ok(problems) => {
+                for what in &problems {
+                    ctx.violation("eq-implies-hash-eq", &format!("eq-but-hash-differs:type-spellings:{}", what),
+                        format!("type code {}: the named spelling and Unknown({}) compare equal as {} but hash differently (or the owned copy differs)", c, c, what), json!({"family": "type-spellings", "idx": c}));
+                }
+                if problems.is_empty() {
+                    ctx.count("type_spellings_consistent");
+                }
+            }
+        }
+    }
+}
+
 /// Values made by the public constructors and setters (not by the parser): clone and into_owned must give equal values
 /// with equal hashes and equal bytes.
 fn constructed_values(ctx: &mut Ctx) {
@@ -412,6 +455,9 @@ pub fn run(ctx: &mut Ctx) {
     }
     if ctx.family_active("constructed") && ctx.take("constructed", 0) {
         constructed_values(ctx);
+    }
+    if ctx.family_active("type-spellings") {
+        type_spellings(ctx);
     }
     // messages with two or three OPT records: the parser lifts one, the others stay in the section as ordinary records
     // holding OPT data (the only way such records come to exist besides building them by hand)
